@@ -356,7 +356,13 @@ func (v ReceiverValidator) validateSecurity(receiver *metadata.ReceiverMeta) (*d
 		return nil, nil
 	}
 
-	// Finally, emit an error diagnostic - the receiver has no security
+	// Finally, emit an error diagnostic - the receiver has no security.
+	// A method without return values has none to point at - point at the method itself rather than at 0:0
+	diagRange := receiver.RetValsRange()
+	if len(receiver.RetVals) == 0 {
+		diagRange = receiver.Range
+	}
+
 	diag := diagnostics.NewErrorDiagnostic(
 		receiver.Annotations.FileName(),
 		fmt.Sprintf(
@@ -365,7 +371,7 @@ func (v ReceiverValidator) validateSecurity(receiver *metadata.ReceiverMeta) (*d
 			receiver.Name,
 		),
 		diagnostics.DiagReceiverMissingSecurity,
-		receiver.RetValsRange(),
+		diagRange,
 	)
 
 	return &diag, nil
